@@ -55,7 +55,7 @@ impl Parse for WherePredicatesOrBool {
 pub(crate) fn meta_name_value_2_where_predicates_bool(
     name_value: &MetaNameValue,
 ) -> syn::Result<WherePredicatesOrBool> {
-    if let Expr::Lit(lit) = &name_value.value {
+    if let Expr::Lit(lit) = super::r#type::ungroup_expr(&name_value.value) {
         return WherePredicatesOrBool::from_lit(&lit.lit);
     }
 
